@@ -23,10 +23,8 @@ class OpaqueCall:
 
 def encode_arg(st, v):
     """Encode an argument value as a list of z3 terms (for uninterpreted-function application)."""
-    v = v if not isinstance(v, SOpt) else v
     if isinstance(v, SOpt):
-        inner = encode_arg(st, v.val)
-        return [z3.If(v.isnone, z3.IntVal(1), z3.IntVal(0))] + [z3.If(v.isnone, _zero(t), t) for t in inner]
+        v = st.force(v)  # forks only when both cases are possible; canonical encoding either way
     if v is None:
         return [z3.IntVal(-7777)]
     if isinstance(v, bool):
@@ -60,6 +58,46 @@ def _zero(t):
     return t
 
 
+def uf_shape_value(st, base, args, shape):
+    """A value of `shape` determined by the z3 terms `args` (uninterpreted functions named after `base`)."""
+    dom = [t.sort() for t in args]
+    base = f"{base}/{'.'.join(str(d)[0] for d in dom)}"  # one function per signature
+
+    def mk(shp, path):
+        if isinstance(shp, S._Int):
+            e = z3.Function(f"{base}{path}", *dom, z3.IntSort())(*args)
+            if shp.lo is not None:
+                st.assume(e >= shp.lo)
+            if shp.hi is not None:
+                st.assume(e <= shp.hi)
+            return mk_int(e)
+        if isinstance(shp, S._Bool):
+            return mk_bool(z3.Function(f"{base}{path}", *dom, z3.BoolSort())(*args))
+        if isinstance(shp, S.Atom):
+            if len(shp.domain) == 1:
+                return shp.domain[0]
+            e = z3.Function(f"{base}{path}", *dom, z3.IntSort())(*args)
+            st.assume(z3.Or(*[e == atom_code(d) for d in shp.domain]))
+            return SAtom(e, shp.domain)
+        if isinstance(shp, S.Opt):
+            isn = z3.Function(f"{base}{path}?", *dom, z3.BoolSort())(*args)
+            return SOpt(isn, mk(shp.inner, path + "v"))
+        if isinstance(shp, S.Tup):
+            return tuple(mk(s, f"{path}.{i}") for i, s in enumerate(shp.items))
+        if isinstance(shp, S.Opaque):
+            e = z3.Function(f"{base}{path}", *dom, S.opaque_sort(shp.kind))(*args)
+            return SOpaque(shp.kind, e, dict(shp.meta))
+        if isinstance(shp, S.Const):
+            return shp.value
+        if isinstance(shp, S.Obj):
+            o = SObj(shp.cls, {k: mk(s, f"{path}.{k}") for k, s in shp.fields.items()}, base_list=shp.base_list)
+            o.shape = shp
+            return o
+        raise Unsupported(f"uninterpreted result of shape {shp!r}")
+
+    return mk(shape, "")
+
+
 class PMethod:
     def __init__(self, result=None, mutates=False, ensures=None, raises_any=False, params=None, defaults=None, pure_of_version=True):
         self.result = result  # Shape
@@ -87,43 +125,7 @@ class Protocol:
 
     def uf_value(self, st, name, recv, argterms, shape, ver):
         """A value of `shape` that is a function of (recv, version, args)."""
-        base = f"{self.kind}.{name}"
-        dom = [recv.e.sort(), z3.IntSort()] + [t.sort() for t in argterms]
-        args = [recv.e, z3.IntVal(ver)] + list(argterms)
-
-        def mk(shp, path):
-            if isinstance(shp, S._Int):
-                e = z3.Function(f"{base}{path}", *dom, z3.IntSort())(*args)
-                if shp.lo is not None:
-                    st.assume(e >= shp.lo)
-                if shp.hi is not None:
-                    st.assume(e <= shp.hi)
-                return mk_int(e)
-            if isinstance(shp, S._Bool):
-                return mk_bool(z3.Function(f"{base}{path}", *dom, z3.BoolSort())(*args))
-            if isinstance(shp, S.Atom):
-                if len(shp.domain) == 1:
-                    return shp.domain[0]
-                e = z3.Function(f"{base}{path}", *dom, z3.IntSort())(*args)
-                st.assume(z3.Or(*[e == atom_code(d) for d in shp.domain]))
-                return SAtom(e, shp.domain)
-            if isinstance(shp, S.Opt):
-                isn = z3.Function(f"{base}{path}?", *dom, z3.BoolSort())(*args)
-                return SOpt(isn, mk(shp.inner, path + "v"))
-            if isinstance(shp, S.Tup):
-                return tuple(mk(s, f"{path}.{i}") for i, s in enumerate(shp.items))
-            if isinstance(shp, S.Opaque):
-                e = z3.Function(f"{base}{path}", *dom, S.opaque_sort(shp.kind))(*args)
-                return SOpaque(shp.kind, e, dict(shp.meta))
-            if isinstance(shp, S.Const):
-                return shp.value
-            if isinstance(shp, S.Obj):
-                o = SObj(shp.cls, {k: mk(s, f"{path}.{k}") for k, s in shp.fields.items()}, base_list=shp.base_list)
-                o.shape = shp
-                return o
-            raise Unsupported(f"protocol result shape {shp!r}")
-
-        return mk(shape, "")
+        return uf_shape_value(st, f"{self.kind}.{name}", [recv.e, z3.IntVal(ver)] + list(argterms), shape)
 
     def call_quiet(self, st, recv, name, vals):
         """The value a call would return, without logging it in the ghost call trace or bumping versions."""
